@@ -106,14 +106,24 @@ type goVerdict struct {
 	defOK    bool // var d = c is valid
 	defType  types.Type
 	op       string
-	operands []string // classes of the operands of the outermost operator
-	quirk    string   // non-empty: the reference cannot judge this expression
-	subs     []string // source of the operands that are not plain literals
+	operands []string                  // classes of the operands of the outermost operator
+	quirk    string                    // non-empty: the reference cannot judge this expression
+	subs     []string                  // source of the operands that are not plain literals
+	named    map[string]constant.Value // values of the prelude's constants
 }
 
-func goSource(e string) string {
+// prelude is a list of named constants declared before c (empty for the
+// single-expression spaces).
+type prelude struct {
+	decls string   // "const a = ...\nconst b = ...\n"
+	names []string // a, b
+}
+
+func goSource(pre prelude, e string) string {
 	var b strings.Builder
-	b.WriteString("package main\nconst c = ")
+	b.WriteString("package main\n")
+	b.WriteString(pre.decls)
+	b.WriteString("const c = ")
 	b.WriteString(e)
 	b.WriteString("\n")
 	for i, t := range basicTypes {
@@ -193,9 +203,10 @@ func referenceQuirk(info *types.Info, root ast.Expr) string {
 	return quirk
 }
 
-func goJudge(e string) (*goVerdict, error) {
+func goJudge(pre prelude, e string) (*goVerdict, error) {
 	fset := token.NewFileSet()
-	src := goSource(e)
+	src := goSource(pre, e)
+	cLine := 2 + len(pre.names)
 	f, err := parser.ParseFile(fset, "main.go", src, parser.SkipObjectResolution)
 	if err != nil {
 		return nil, err
@@ -212,7 +223,7 @@ func goJudge(e string) (*goVerdict, error) {
 	pkg, _ := conf.Check("main", fset, []*ast.File{f}, info)
 	v := &goVerdict{}
 	// operand classes
-	root := ast.Unparen(f.Decls[0].(*ast.GenDecl).Specs[0].(*ast.ValueSpec).Values[0])
+	root := ast.Unparen(f.Decls[len(pre.names)].(*ast.GenDecl).Specs[0].(*ast.ValueSpec).Values[0])
 	var operands []ast.Expr
 	switch n := root.(type) {
 	case *ast.BinaryExpr:
@@ -237,9 +248,17 @@ func goJudge(e string) (*goVerdict, error) {
 		}
 	}
 	v.quirk = referenceQuirk(info, root)
-	if msg, bad := byLine[2]; bad {
-		v.errMsg = msg
-		return v, nil
+	for ln := 2; ln <= cLine; ln++ {
+		if msg, bad := byLine[ln]; bad {
+			v.errMsg = msg
+			return v, nil
+		}
+	}
+	v.named = map[string]constant.Value{}
+	for _, n := range pre.names {
+		if k, _ := pkg.Scope().Lookup(n).(*types.Const); k != nil && k.Val() != nil {
+			v.named[n] = k.Val()
+		}
 	}
 	c, _ := pkg.Scope().Lookup("c").(*types.Const)
 	if c == nil || c.Val() == nil || c.Val().Kind() == constant.Unknown {
@@ -249,14 +268,14 @@ func goJudge(e string) (*goVerdict, error) {
 	v.typ = c.Type()
 	v.val = c.Val()
 	for i := range basicTypes {
-		if msg, bad := byLine[3+i]; bad {
+		if msg, bad := byLine[cLine+1+i]; bad {
 			v.convErr[i] = msg
 			continue
 		}
 		ci := pkg.Scope().Lookup("c" + strconv.Itoa(i)).(*types.Const)
 		v.conv[i] = ci.Val()
 	}
-	if _, bad := byLine[3+len(basicTypes)]; !bad {
+	if _, bad := byLine[cLine+1+len(basicTypes)]; !bad {
 		v.defOK = true
 		v.defType = pkg.Scope().Lookup("d").Type()
 	}
@@ -398,8 +417,11 @@ type probe struct {
 }
 
 // checkExpr is the oracle for one expression.
-func checkExpr(e string) kit.Outcome {
-	gv, err := goJudge(e)
+func checkExpr(e string) kit.Outcome { return checkBlock(prelude{}, e) }
+
+// checkBlock is the oracle for `const c = e` preceded by the named constants of pre.
+func checkBlock(pre prelude, e string) kit.Outcome {
+	gv, err := goJudge(pre, e)
 	if err != nil {
 		panic(fmt.Sprintf("harness: generated expression %q does not parse: %v", e, err))
 	}
@@ -437,7 +459,11 @@ func checkExpr(e string) kit.Outcome {
 			opKey += " " + names[i] + "=" + c
 		}
 	}
-	base := "package main\nconst c = " + e + "\n"
+	if len(pre.names) > 0 {
+		opKey = "named-constants " + opKey
+		e = e + "   // after: " + strings.ReplaceAll(strings.TrimSpace(pre.decls), "\n", "; ")
+	}
+	base := "package main\n" + pre.decls + "const c = " + e + "\n"
 	_, sr := scriggoBuild(base + "func main() { }\n")
 	if sr.badErr != "" {
 		return fail("error-type|"+sr.badErr, fmt.Sprintf("const c = %s\nBuild returned %s: %s (want *scriggo.BuildError)", e, sr.badErr, sr.msg))
@@ -465,6 +491,12 @@ func checkExpr(e string) kit.Outcome {
 	var probes []probe
 	if lit := exactCompare(gv.val); lit != "" {
 		probes = append(probes, probe{lit, true, opKey + " value-differs(exact)"})
+	}
+	// the named constants must still hold their values after c has been computed
+	for _, n := range pre.names {
+		if lit := exactCompareOf(n, gv.named[n]); lit != "" {
+			probes = append(probes, probe{lit, true, opKey + " operand-constant-changed"})
+		}
 	}
 	if gv.defOK {
 		name := gv.defType.Underlying().(*types.Basic).Name()
@@ -594,16 +626,21 @@ func rounded512IsInt(val constant.Value) bool {
 
 // exactCompare returns a boolean constant expression that is true exactly
 // when c has the value val, or "" if val has no exact literal.
-func exactCompare(val constant.Value) string {
+func exactCompare(val constant.Value) string { return exactCompareOf("c", val) }
+
+func exactCompareOf(c string, val constant.Value) string {
+	if val == nil {
+		return ""
+	}
 	if val.Kind() == constant.Complex {
 		re, im := exactLiteral(constant.Real(val)), exactLiteral(constant.Imag(val))
 		if re == "" || im == "" {
 			return ""
 		}
-		return "real(c) == " + re + " && imag(c) == " + im
+		return "real(" + c + ") == " + re + " && imag(" + c + ") == " + im
 	}
 	if lit := exactLiteral(val); lit != "" {
-		return "c == " + lit
+		return c + " == " + lit
 	}
 	return ""
 }
@@ -695,6 +732,76 @@ func deepSpaces(tag string, lits []string, typed bool) []kit.Space {
 	}
 }
 
+// int64Boundary: the operands around the int64 fast path of integer
+// constants. MinInt64 in the small (int64) representation is only reachable
+// through arithmetic such as (-9223372036854775807 - 1): the literal
+// -9223372036854775808 is parsed as a big integer.
+var int64Boundary = []string{pow2(63, -1), "-" + pow2(63, -1), pow2(63, -2), "1", "-1", "2", "0", pow2(31, -1), pow2(62, 0)}
+var arithOps = []string{"+", "-", "*", "/", "%"}
+
+func boundarySpaces() []kit.Space {
+	nl, nb := uint64(len(int64Boundary)), uint64(len(arithOps))
+	size := kit.Product(nl, nb, nl, nb, nl)
+	l := func(i uint64) string { return int64Boundary[i] }
+	return []kit.Space{
+		exprSpace("13.int64-boundary.(a.b).c", size, func(i uint64) string {
+			m := kit.Mixed(i, nl, nb, nl, nb, nl)
+			return bin(bin(l(m[4]), arithOps[m[3]], l(m[2])), arithOps[m[1]], l(m[0]))
+		}),
+		exprSpace("13.int64-boundary.a.(b.c)", size, func(i uint64) string {
+			m := kit.Mixed(i, nl, nb, nl, nb, nl)
+			return bin(l(m[4]), arithOps[m[3]], bin(l(m[2]), arithOps[m[1]], l(m[0])))
+		}),
+	}
+}
+
+// named constants: const a = L; const b = <op on a>; const c = <op on a and b>.
+// The constant of a declared name is shared by all its uses, so an operation
+// that modifies an operand in place corrupts a (and every later use of it).
+var namedLiterals = append(append([]string{}, literals...), "1<<40", "1<<64", "1<<70", "-1<<63", "1<<63 - 1", "0.5 + 0.1", "1 + 1i")
+var namedB = []string{"-a", "+a", "^a", "a + 1", "a - 1", "a * 2", "a / 2", "a << 1", "a >> 1", "a * a", "a - a", "a"}
+var namedC = []string{"a + b", "a - b", "b - a", "a * b", "a / b", "a % b", "a & b", "a | b", "a ^ b", "a &^ b", "a == b", "a < b", "a > 0", "b > 0", "a == a", "-a", "-b", "a"}
+
+var reName = regexp.MustCompile(`\b[ab]\b`)
+
+func namedSpace() kit.Space {
+	nl, nbb, nc := uint64(len(namedLiterals)), uint64(len(namedB)), uint64(len(namedC))
+	at := func(i uint64) (pre prelude, c string, inlineB, inlineC string) {
+		m := kit.Mixed(i, nc, nbb, nl)
+		lit, b, c := namedLiterals[m[2]], namedB[m[1]], namedC[m[0]]
+		pre = prelude{decls: "const a = " + lit + "\nconst b = " + b + "\n", names: []string{"a", "b"}}
+		inlineB = reName.ReplaceAllString(b, "("+lit+")")
+		inlineC = reName.ReplaceAllStringFunc(c, func(n string) string {
+			if n == "a" {
+				return "(" + lit + ")"
+			}
+			return "(" + inlineB + ")"
+		})
+		return pre, c, inlineB, inlineC
+	}
+	return kit.Space{
+		Name: "14.named-constants",
+		Size: kit.Product(nc, nbb, nl),
+		Eval: func(i uint64) kit.Outcome {
+			pre, c, inlineB, inlineC := at(i)
+			// a defect of the expressions themselves is reported under its own key
+			for _, e := range []string{inlineB, inlineC} {
+				if o := checkCached(e); !o.OK {
+					o.Detail = pre.decls + "const c = " + c + "\nthe same expression without named constants already fails:\n" + o.Detail
+					return o
+				} else if strings.HasPrefix(o.Class, "skipped:") {
+					return o
+				}
+			}
+			return checkBlock(pre, c)
+		},
+		Describe: func(i uint64) any {
+			pre, c, _, _ := at(i)
+			return pre.decls + "const c = " + c
+		},
+	}
+}
+
 func spaces(tier string) []kit.Space {
 	thorough := tier == "thorough"
 	nb, nu, nt := uint64(len(binOps)), uint64(len(unOps)), uint64(len(basicTypes))
@@ -756,6 +863,8 @@ func spaces(tier string) []kit.Space {
 			return bin(typed(m[4], m[3]), shifts[m[2]], basicTypes[m[1]]+"("+sc[m[0]]+")")
 		}),
 	}
+	sps = append(sps, boundarySpaces()...)
+	sps = append(sps, namedSpace())
 	if thorough {
 		sps = append(sps, deepSpaces("11.depth2.untyped16", deep16, false)...)
 		sps = append(sps, deepSpaces("12.depth2.typed8", deep8, true)...)
@@ -772,7 +881,7 @@ func main() {
 	kit.Main(&kit.Check{
 		ID:    "C02",
 		Level: "model_checking",
-		Rule:  fmt.Sprintf("every constant expression of the listed shapes over %d literals (0, ±1, 2^k-1/2^k/2^k+1 for k in 7,8,15,16,31,32,63,64, 2^100, 511, 512, 2^511, floats on and off the float64 fast path, beyond float32/float64, rune, strings, bools, imaginary), %d binary and %d unary operators and conversions to the %d basic types: leaf, unary, binary (untyped, T op T, T op untyped, untyped op T), shifts with independently typed operands, unary-of-binary, binary-of-unary, and both depth-2 binary shapes over a 7 (quick) / 16 (thorough) literal subset, thorough also with all three leaves converted to each basic type; in the quick tier the typed binary and shift spaces draw their literals from a 20-literal core subset and the unary-of-binary / binary-of-unary spaces use the unary operator - only. Each index is a distinct expression text. A case is non-trivial when every operand of the outermost operator is itself a valid constant expression for go/types, so the verdict depends on the operator and not on a broken leaf", len(literals), len(binOps), len(unOps), len(basicTypes)),
+		Rule:  fmt.Sprintf("every constant expression of the listed shapes over %d literals (0, ±1, 2^k-1/2^k/2^k+1 for k in 7,8,15,16,31,32,63,64, 2^100, 511, 512, 2^511, floats on and off the float64 fast path, beyond float32/float64, rune, strings, bools, imaginary), %d binary and %d unary operators and conversions to the %d basic types: leaf, unary, binary (untyped, T op T, T op untyped, untyped op T), shifts with independently typed operands, unary-of-binary, binary-of-unary, both depth-2 shapes with the operators + - * / %% over 9 operands around the int64 fast path (MaxInt64, -MaxInt64, MaxInt64-1, 1, -1, 2, 0, MaxInt32, 2^62), blocks of named constants (const a = L; const b = one of 12 operations on a; const c = one of 18 operations on a and b, over the literal set plus shift and sum expressions; a and b are re-read after c), and both depth-2 binary shapes over a 7 (quick) / 16 (thorough) literal subset, thorough also with all three leaves converted to each basic type; in the quick tier the typed binary and shift spaces draw their literals from a 20-literal core subset and the unary-of-binary / binary-of-unary spaces use the unary operator - only. Each index is a distinct expression text. A case is non-trivial when every operand of the outermost operator is itself a valid constant expression for go/types, so the verdict depends on the operator and not on a broken leaf", len(literals), len(binOps), len(unOps), len(basicTypes)),
 		Assumptions: []string{
 			"reference = go/types + go/constant of the toolchain that builds the check (GoVersion go1.25, 64-bit int)",
 			"values are compared after conversion to each basic type (floats after rounding to the type) and, for integers, dyadic rationals, strings and booleans, exactly against a literal; non-dyadic untyped float values are compared only through float32/float64/complex rounding",
